@@ -85,6 +85,7 @@ def run_partition(job):
                    max_steps=part.get('max_steps', lim['max_steps']),
                    logic=part.get('logic', lim.get('logic', "QF_BV")))
     core.CTX = ctx
+    ctx.max_path_time = part.get('max_path_time', lim.get('max_path_time', 90))
     ctx.export = []
     ctx.export_every = lim.get('export_every', 0)
     rng = random.Random("%s/%s/%s" % (job['seed'], job['module'], part['name']))
